@@ -387,7 +387,7 @@ def history(ctx, obj, model, dims, kinds, target=None, label="region"):
     rng = ctx.rng
     nsteps = int(rng.integers(2, 21 if ctx.thorough else 9))
     used, n_inplace, neg, ref = set(), 0, False, False
-    prev = None  # (object, digest) of the receiver of the previous copying step
+    ancestors = []  # (object, digest) of the receivers of earlier copying steps
     log = []
     check_quiescent(ctx, obj, -1)
     check_model(ctx, obj, model, -1)
@@ -416,7 +416,10 @@ def history(ctx, obj, model, dims, kinds, target=None, label="region"):
         f = kw.get("factor")
         neg = neg or (f is not None and bool(np.any(np.asarray(f, float) < 0)))
         ref = ref or kw.get("reference_point") is not None
-        clone = clone_of(obj)
+        # the in-place form runs on the object itself when the history continues in place
+        # (so that objects returned by earlier copying steps are the ones being modified:
+        # anything they still share with their originals shows), else on a clone
+        clone = obj if inplace else clone_of(obj)
         d0 = core.digest(obj)
         recv = obj._mesh if on_mesh else obj
         recv_clone = clone._mesh if on_mesh else clone
@@ -443,15 +446,15 @@ def history(ctx, obj, model, dims, kinds, target=None, label="region"):
                       log=log, object=label, kind=kind,
                       inplace_state={k: v for k, v in state(clone).items() if k in ("pmin", "pmax", "units", "n")},
                       copy_state={k: v for k, v in state(cp).items() if k in ("pmin", "pmax", "units", "n")})
-        if prev is not None:
-            ctx.check("C13.copy_leaves_original", core.digest(prev[0]) == prev[1], step=step,
+        for anc, danc in ancestors:
+            ctx.check("C13.copy_leaves_original", core.digest(anc) == danc, step=step,
                       log=log, note="an earlier original changed by a later step on its copy")
         if inplace:
             n_inplace += 1
-            prev = None
             obj = clone
         else:
-            prev = (obj, d0)
+            ancestors.append((obj, d0))
+            ancestors[:] = ancestors[-4:]
             obj = cp
         check_quiescent(ctx, obj, step)
         check_model(ctx, obj, model, step)
